@@ -4,6 +4,7 @@ package props
 // not use the library's encoder, reply parsing with the harness's own bencode reader.
 
 import (
+	"errors"
 	"fmt"
 	"net"
 	"runtime"
@@ -35,10 +36,12 @@ type BKV = refmodel.BKV
 type Src struct {
 	IP   kit.Hex
 	Port int
+	// Zone: IPv6 scope zone of a link-local source, as the socket reports it ("" for everything else)
+	Zone string
 }
 
 func (s Src) UDP() *net.UDPAddr {
-	return &net.UDPAddr{IP: net.IP(append([]byte(nil), s.IP...)), Port: s.Port}
+	return &net.UDPAddr{IP: net.IP(append([]byte(nil), s.IP...)), Port: s.Port, Zone: s.Zone}
 }
 func (s Src) String() string { return s.UDP().String() }
 func (s Src) NetIP() net.IP  { return net.IP(s.IP) }
@@ -84,6 +87,35 @@ func (r *recStore) Put(i *bep44.Item) error {
 	return r.inner.Put(i)
 }
 func (r *recStore) Get(t bep44.Target) (*bep44.Item, error) { return r.inner.Get(t) }
+
+// faultyStore is a bep44.Store of the kind ServerConfig.Store admits: a backend that can fail. Get and
+// Put fail for targets / items selected by the scenario, with a plain error or a KRPC error.
+type faultyStore struct {
+	inner bep44.Store
+}
+
+func faultyKind(b byte) int { return int(b) % 4 } // 0,1 = works; 2 = plain error; 3 = KRPC error
+
+func (f faultyStore) fail(k int) error {
+	if k == 2 {
+		return errors.New("simulated storage backend failure")
+	}
+	return krpc.Error{Code: 201, Msg: "simulated storage backend failure"}
+}
+func (f faultyStore) Get(t bep44.Target) (*bep44.Item, error) {
+	if k := faultyKind(t[19]); k >= 2 {
+		return nil, f.fail(k)
+	}
+	return f.inner.Get(t)
+}
+func (f faultyStore) Put(i *bep44.Item) error {
+	t := i.Target()
+	if k := faultyKind(t[18]); k >= 2 {
+		return f.fail(k)
+	}
+	return f.inner.Put(i)
+}
+func (f faultyStore) Del(t bep44.Target) error { return f.inner.Del(t) }
 func (r *recStore) Del(t bep44.Target) error {
 	r.mu.Lock()
 	r.dels++
